@@ -17,7 +17,7 @@ func init() {
 		Decides: "every merge-heap / batch-sort comparator on the ordered-query paths induces exactly the order it must (key, direction flag, tie-breaks), over every weak ordering of its operands: iter/sort containerHeap, stream/sidx blockCursorHeap, sidx QueryResponseHeap, trace sidxStreamHeap, model.StreamResultHeap, the part/block merge heaps of measure, stream, trace and sidx, the batch sorters, SeriesList; " +
 			"k-way mergers restore the heap (Fix/Pop) after advancing the top cursor before reading it again; in the distributed measure plan the limit handed to data nodes is offset+limit; the sidx cursor builder records a payload as seen only for elements inside the key range; the time window of an index-sorted stream batch offers every document to both its minimum and its maximum.",
 		NotDecided: "that each input cursor is itself sorted, duplicates, early termination, exactly-once delivery of secondary-index entries, the composition of per-node windows into the global window.",
-		Technique:  "finite-domain abstract interpretation of comparator syntax trees; CFG must-follow for heap discipline; SSA def-use of the pushed-down limit",
+		Technique:  "finite-domain abstract interpretation of comparator syntax trees; CFG must-follow for heap discipline; SSA def-use of the pushed-down limit; guarded-call (seen only when in range); per-iteration must-test of sibling accumulators",
 		Run:        runC09,
 	})
 }
